@@ -974,13 +974,15 @@ def rule_r13(ctx) -> List[R.Inst]:
     fn = M.fn(TL + ".empty")
     file, line = fn_loc(M, TL + ".empty")
     rep = any(isinstance(n, ast.Call) and call_name(n) == "repeat" for n in ast.walk(fn.node))
-    ok_b = any(isinstance(n, ast.Assign) and isinstance(n.targets[0], ast.Subscript) and copies_per_element(n.value) for n in ast.walk(fn.node))
+    ok_b = any(isinstance(n, ast.Assign) and isinstance(n.targets[0], ast.Subscript) and copies_per_element(n.value) for n in ast.walk(fn.node)) or \
+        any(isinstance(n, ast.DictComp) and copies_per_element(n.value) and
+            any(isinstance(x, ast.Call) and call_name(x) == "repeat" for x in ast.walk(n.value)) for n in ast.walk(fn.node))   # column-wise: {name: Series([copy(v) for v in one.repeat(n)])}
     insts.append(R.ok(rid, "empty", file, line, idiom="object cells are copied per row after the repeat") if (ok_b or not rep) else
                  R.viol(rid, "empty", file, line,
                         f"empty(n) repeats the single default row: all n cells of an object column are the same Python object ({what}); "
                         f"giving one note a key sound gives it to all of them", construct="empty: index.repeat(rows) without per-row copies"))
     # (c) from_dict fill
-    fn = M.fn(TL + ".from_dict")
+    fn = M.nfn(TL + ".from_dict", subst=True)      # a list of copies named before it is stored is put back into the store
     file, line = fn_loc(M, TL + ".from_dict")
     # the loop variable that carries the declared default: the last name of `for name, (type, default) in <…>._props.items()`
     dnames = {"default"}
